@@ -40,4 +40,66 @@ def shape (t : Table) : Nat × Nat := (t.height, t.width)
 /-- `assert c` -/
 def pyAssert (c : Bool) : Except PyErr Unit := if c then .ok () else .error .AssertionError
 
+/-- `set(xs)` used for membership tests only (`x in s`, `x not in s`): the list it was built from -/
+abbrev pySet {α} (xs : List α) : List α := xs
+
+/-- `a | b` on sets (carried as lists up to membership) -/
+def setUnion {α} [BEq α] (a b : List α) : List α := a ++ b.filter fun x => !a.contains x
+/-- `a & b` on sets -/
+def setInter {α} [BEq α] (a b : List α) : List α := a.filter fun x => b.contains x
+/-- `a == b` on sets: mutual inclusion -/
+def setEq {α} [BEq α] (a b : List α) : Bool := (a.all fun x => b.contains x) && (b.all fun x => a.contains x)
+
+/-- builtin `min(a, b)` of two numbers: the first minimal argument -/
+def pyMin2 (a b : Int) : Int := if b < a then b else a
+/-- builtin `max(a, b)` of two numbers: the first maximal argument -/
+def pyMax2 (a b : Int) : Int := if b > a then b else a
+
+/-- `all(f(x) for x in xs)` over a GENERATOR: stops at the first `False` (later elements are not evaluated) -/
+def allM {α} (f : α → Except PyErr Bool) : List α → Except PyErr Bool
+  | [] => .ok true
+  | x :: xs =>
+    match f x with
+    | .error e => .error e
+    | .ok false => .ok false
+    | .ok true => allM f xs
+
+/-- `any(f(x) for x in xs)` over a generator: stops at the first `True` -/
+def anyM {α} (f : α → Except PyErr Bool) : List α → Except PyErr Bool
+  | [] => .ok false
+  | x :: xs =>
+    match f x with
+    | .error e => .error e
+    | .ok true => .ok true
+    | .ok false => anyM f xs
+
+/-- `[e for x in xs if c]` when `c` or `e` may raise: elements in order, the first exception wins -/
+def filterMapM {α β} (f : α → Except PyErr (Option β)) : List α → Except PyErr (List β)
+  | [] => .ok []
+  | x :: xs =>
+    match f x with
+    | .error e => .error e
+    | .ok o =>
+      match filterMapM f xs with
+      | .error e => .error e
+      | .ok r => .ok (match o with | some y => y :: r | none => r)
+
+/-- a `dict` read by `d[k]` only, carried as an association list in insertion order: the LAST pair with the key
+    counts (in a dict display / comprehension a later binding of a key overwrites an earlier one) -/
+def dictFind {κ ν} [BEq κ] : List (κ × ν) → κ → Option ν
+  | [], _ => none
+  | (k', v) :: rest, k =>
+    match dictFind rest k with
+    | some w => some w
+    | none => if k' == k then some v else none
+
+/-- `d[k]`: `KeyError` when the key is absent -/
+def dictGet {κ ν} [BEq κ] (d : List (κ × ν)) (k : κ) : Except PyErr ν :=
+  match dictFind d k with
+  | some v => .ok v
+  | none => .error .KeyError
+
+/-- `{name: idx for idx, name in enumerate(names)}` -/
+def enumDict {κ} (names : List κ) : List (κ × Nat) := (enumerate names).map fun p => (p.2, p.1)
+
 end Fca.Gen
